@@ -2,6 +2,7 @@ package authchk
 
 import (
 	"os"
+	"runtime"
 	"testing"
 
 	"github.com/tucats/ego/internal/verifh/srvfix"
@@ -23,4 +24,19 @@ func startFixture(t *testing.T) *srvfix.Fixture {
 	}
 
 	return f
+}
+
+// ballast: every presentation of a token that is not served from the server's token cache derives an
+// Argon2id key over a fresh 32 MiB block. With Go's default pacing that block is collected and its pages are
+// handed back to the kernel after almost every call, and touching them again costs far more than the
+// derivation itself on this VM (0.1-1 s instead of 45 ms). A never-touched live allocation raises the heap
+// goal just enough for the freed block to be reused instead of returned.
+var ballast []byte
+
+func TestMain(m *testing.M) {
+	ballast = make([]byte, 64<<20)
+	rc := m.Run()
+
+	runtime.KeepAlive(ballast)
+	os.Exit(rc)
 }
